@@ -21,7 +21,7 @@ func init() {
 	core.Register(&core.Check{
 		ID:          "C05",
 		Level:       "exploration",
-		Rule:        "a valid generated base program (effects at the very start and in every block, functions, an event handler, graphics calls) plus exactly one rule-breaking edit from a catalogue of 33 edit kinds (undeclared/unused variable, variable of a sibling if-branch, redeclaration incl. parameters, parameter without the colon between name and type, loop variables, built-in globals and function names, type mismatches, argument counts, missing return at the end and in a single branch of an if/else-if/else chain, unreachable code (directly after the terminating statement and after comment / blank lines), break outside a loop, return value in a procedure/handler/top level, bare return in a function, unknown function, call of a procedure used as a value (element, map value, operand, argument, declaration), stray tokens after statements, after func / on headers (also after a variadic marker) and after every kind of end, assignment to a character of a string element, anonymous handler parameter of the wrong type, two statements on one line, non-bool condition), applied at every line where the rule applies; each case runs in-process through Evaluator.Run with the recording platform and, sampled, through the real `evy run` (with and without --svg-out). distinct = distinct (edit kind, line kind, error message shape)",
+		Rule:        "a valid generated base program (effects at the very start and in every block, functions, an event handler, graphics calls) plus exactly one rule-breaking edit from a catalogue of 35 edit kinds (undeclared/unused variable, variable of a sibling if-branch, redeclaration incl. parameters, repeated handler parameter names, err / errmsg declared in nested scopes, as parameters and as loop variables, parameter without the colon between name and type, loop variables, built-in globals and function names, type mismatches, argument counts, missing return at the end and in a single branch of an if/else-if/else chain, unreachable code (directly after the terminating statement and after comment / blank lines), break outside a loop, return value in a procedure/handler/top level, bare return in a function, unknown function, call of a procedure used as a value (element, map value, operand, argument, declaration), stray tokens after statements, after func / on headers (also after a variadic marker) and after every kind of end, assignment to a character of a string element, anonymous handler parameter of the wrong type, two statements on one line, non-bool condition), applied at every line where the rule applies; each case runs in-process through Evaluator.Run with the recording platform and, sampled, through the real `evy run` (with and without --svg-out). distinct = distinct (edit kind, line kind, error message shape)",
 		Assumptions: []string{"base programs are produced by the C10 generator (accepted by construction; a rejected base is reported as a harness failure)"},
 		NeedsEvy:    true,
 		NumCases: func(tier string) int {
@@ -334,6 +334,45 @@ func c05Edits() []c05Edit {
 			}
 			return "", false
 		}},
+		{"redeclare-builtin-global-nested", func(ls []c05Line, i int) (string, bool) {
+			// err and errmsg cannot be declared anywhere: nested blocks, function bodies, parameters, loop variables
+			if ls[i].kind == "return" || ls[i].kind == "break" {
+				return "", false
+			}
+			ind := ls[i].indent
+			switch ls[i].kind {
+			case "if", "elseif", "else", "while", "for", "func", "on":
+				ind += "    "
+			}
+			forms := [][]string{
+				{ind + "errmsg := \"x\"", ind + "print errmsg"}, {ind + "err:bool", ind + "print err"},
+				{ind + "for err := range 2", ind + "    print err", ind + "end"}, {ind + "for errmsg := range \"ab\"", ind + "    print errmsg", ind + "end"},
+			}
+			if ls[i].kind == "end" && ls[i].indent == "" {
+				forms = [][]string{{"func chk_q err:bool", "    print err", "end"}, {"func chk2_q n:num errmsg:string", "    print n errmsg", "end"}, {"func chk3_q errs:num...", "    print errs", "end", "func chk4_q err:string...", "    print err", "end"}}
+			}
+			f := forms[i%len(forms)]
+			return joinLines(ls, func(j int, l c05Line) []string {
+				if j == i {
+					return append([]string{l.text}, f...)
+				}
+				return []string{l.text}
+			}), true
+		}},
+		{"duplicate-handler-parameter", func(ls []c05Line, i int) (string, bool) {
+			if ls[i].kind != "on" || strings.TrimSpace(ls[i].text) != "on up ux:num uy:num" || i+1 >= len(ls) {
+				return "", false
+			}
+			return joinLines(ls, func(j int, l c05Line) []string {
+				switch j {
+				case i:
+					return []string{"on up ux:num ux:num"}
+				case i + 1:
+					return []string{"    print ux ux"}
+				}
+				return []string{l.text}
+			}), true
+		}},
 		{"stray-after-header", func(ls []c05Line, i int) (string, bool) {
 			// text after the parameters of a func / on line, also after the variadic marker
 			if ls[i].kind != "func" && ls[i].kind != "on" {
@@ -386,7 +425,7 @@ func c05Base(c *core.Ctx) string {
 	base := gen.Print(prog, nil)
 	// graphics at the very start and an event handler: drawing, sleeping, reading must not happen either
 	head := "move 10 10\ncircle 5\nsleep 0.001\nline0 := read\nprint \"first effect\" line0\n"
-	tail := "on key k:string\n    print \"key\" k\n    circle 1\nend\non down _:num _:num\n    print \"down\"\nend\non input _:string val:string\n    print val\nend\n"
+	tail := "on key k:string\n    print \"key\" k\n    circle 1\nend\non up ux:num uy:num\n    print ux uy\nend\non down _:num _:num\n    print \"down\"\nend\non input _:string val:string\n    print val\nend\n"
 	// typed functions whose body ends in a branch chain: every branch must return
 	n := c.Rng.Intn(4)
 	chain, _ := returnPathsSource(c.Rng, n, nil, []string{"num", "string"}[c.Rng.Intn(2)])
